@@ -1411,6 +1411,43 @@ def r_stale(prog, tier):
                           % ('attach' if e.kind == 'ATT' else 'detach', unparse(e.ast)), stale is None,
                           'read inside the loop / not derived from a .parent read' if stale is None else stale,
                           construct='stale:' + unparse(e.ast), line=cfg.nodes[e.node].lineno))
+    # what was read from a node's child list before a loop that replaces that list is not used afterwards as the node's
+    # children (the snapshot-and-re-attach idiom, whose elements are attached again, is something else)
+    for f, evs in movers(prog):
+        if f.module.name != 'transform' or mover_helper(prog, f):
+            continue
+        cfg = f.cfg
+        for c in [e for e in evs if e.kind == 'CLR' and cfg.nodes[e.node].loops and path(e.q)]:
+            X = path(c.q)
+            L = cfg.nodes[c.node].loops[0]
+            forms = ('trees.children(%s)' % X, 'children(%s)' % X, '%s.children' % X)
+            for nm in sorted(f.locals):
+                dv = name_defs(f, nm)
+                if not dv or any(L in cfg.nodes[nid].loops for (nid, _) in dv):
+                    continue            # refreshed inside the loop
+                if not all(isinstance(v, ast.AST) and any(fm in unparse(v) for fm in forms) and cfg.can_reach(nid, L)
+                           for (nid, v) in dv):
+                    continue
+                # re-attached elements: the snapshot idiom
+                if any(e.kind == 'ATT' and _derives_from(f, e.x, e.node, [nm]) for e in evs):
+                    continue
+                uses = []
+                for m in cfg.eval_nodes():
+                    if m.id in [nid for (nid, _) in dv]:
+                        continue
+                    if any(isinstance(x, ast.Name) and x.id == nm and isinstance(x.ctx, ast.Load)
+                           for r_ in cfg.exprs(m.id) for x in ast.walk(r_)):
+                        if cfg.can_reach(c.node, m.id):
+                            uses.append(m)
+                if uses:
+                    u = uses[0]
+                    obs.append(Ob('R-STALE', f.fq, 'what `%s` read from the children of `%s` before the loop is not used after the '
+                                  'loop replaced them' % (nm, X), False,
+                                  '`%s = %s` (line %d) is taken before the loop; `%s` (line %d) gives `%s` new children; line %d still '
+                                  'uses `%s`: it describes the children the node had before' % (
+                                      nm, unparse(dv[0][1])[:40], cfg.nodes[dv[0][0]].lineno, unparse(c.ast)[:30],
+                                      cfg.nodes[c.node].lineno, X, u.lineno, nm),
+                                  construct='stale-snap:%s:%s' % (X, nm), line=u.lineno))
     return obs, {}
 
 
